@@ -80,6 +80,23 @@ Theorem C09_fail_never_last : forall n ws fuel, 0 < n -> lenw ws < fuel ->
                Forall not_last init /\ exists r, concat ws = bodies init ++ r.
 Proof. exact fail_never_last. Qed.
 
+(** a body writer that PANICS after any writes [ws] (the producer thread unwinds:
+    the partial buffer is dropped, no terminal message, the channel closes): the
+    consumer and the pullers see exactly what they see when it returns an error at
+    that point -- never a [last] *)
+Theorem C09_panic_same_as_error : forall n ws fuel, 0 < n -> lenw ws < fuel ->
+  raw_pulls fuel (open_panic n ws) = raw_pulls fuel (open_handler n ws true) /\
+  chunk_reader fuel (open_panic n ws) = chunk_reader fuel (open_handler n ws true).
+Proof. exact panic_same_as_error. Qed.
+
+Theorem C09_panic_never_last : forall n ws fuel, 0 < n -> lenw ws < fuel ->
+  exists init, fst (raw_pulls fuel (open_panic n ws)) = init ++ [RErr EC_INTERNAL] /\
+               Forall not_last init /\ exists r, concat ws = bodies init ++ r.
+Proof. exact panic_never_last. Qed.
+
+Theorem C09_reader_fails_on_panic : forall n ws fuel, chunk_reader fuel (open_panic n ws) = HErr.
+Proof. exact reader_panic. Qed.
+
 (** the same at the level of the channel: a [Fail] at any message index, or a
     channel closed without a terminal message (producer thread gone), after the
     chunks [cs] *)
@@ -133,7 +150,7 @@ Local Open Scope N_scope.
 (** a payload that is an exact multiple of the chunk size: the final full chunk
     carries [last], there is no trailing empty chunk; depth 0 *)
 Example C09_nonvacuous_exact_multiple :
-  let c := mkC09 [1; 2; 3; 4] 2 0 [1; 2] None false 4 0 1 in
+  let c := mkC09 [1; 2; 3; 4] 2 0 [1; 2] None false 4 0 1 false in
   c09_wf c = true /\
   model_C09 c = mkO09 [RChunk [1; 2] false; RChunk [3; 4] true] (RErr 3) [RChunk [1; 2] false] (RErr 3)
                       [] (HBytes [1; 2; 3; 4]) None.
@@ -141,19 +158,34 @@ Proof. vm_compute. split; reflexivity. Qed.
 
 (** one byte more, one byte less, and the empty payload *)
 Example C09_nonvacuous_residues :
-  o_pulls (model_C09 (mkC09 [1; 2; 3; 4; 5] 2 1 [] None false 3 1 0))
+  o_pulls (model_C09 (mkC09 [1; 2; 3; 4; 5] 2 1 [] None false 3 1 0 false))
     = [RChunk [1; 2] false; RChunk [3; 4] false; RChunk [5] true] /\
-  o_pulls (model_C09 (mkC09 [1; 2; 3] 2 1 [0; 3; 9] None false 4 2 0)) = [RChunk [1; 2] false; RChunk [3] true] /\
-  o_pulls (model_C09 (mkC09 [] 7 3 [] None false 4 0 0)) = [RChunk [] true].
+  o_pulls (model_C09 (mkC09 [1; 2; 3] 2 1 [0; 3; 9] None false 4 2 0 false)) = [RChunk [1; 2] false; RChunk [3] true] /\
+  o_pulls (model_C09 (mkC09 [] 7 3 [] None false 4 0 0 false)) = [RChunk [] true].
 Proof. vm_compute. repeat split; reflexivity. Qed.
 
 (** a failure after 5 of 6 bytes with chunks of 2: two full chunks were sent,
     the lookahead swallows the second, the partial tail is never flushed *)
 Example C09_nonvacuous_failure :
-  let c := mkC09 [1; 2; 3; 4; 5; 6] 2 0 [3] (Some 5) false 4 0 3 in
+  let c := mkC09 [1; 2; 3; 4; 5; 6] 2 0 [3] (Some 5) false 4 0 3 false in
   c09_wf c = true /\
   model_C09 c = mkO09 [RChunk [1; 2] false; RErr 9] (RErr 3) [RChunk [1; 2] false; RErr 9] (RErr 3) [] HErr None /\
   ok_C09 c (model_C09 c) = true.
+Proof. vm_compute. repeat split; reflexivity. Qed.
+
+(** the same failure point as a panic: same exchange; and the oracle rejects a
+    clean end over the truncated stream (what a terminal marker sent from a
+    destructor during unwinding would produce), also for an empty prefix *)
+Example C09_nonvacuous_panic :
+  let c := mkC09 [1; 2; 3; 4; 5; 6] 2 0 [3] (Some 5) false 4 0 3 true in
+  c09_wf c = true /\
+  model_C09 c = mkO09 [RChunk [1; 2] false; RErr 9] (RErr 3) [RChunk [1; 2] false; RErr 9] (RErr 3) [] HErr None /\
+  ok_C09 c (model_C09 c) = true /\
+  ok_C09 c (mkO09 [RChunk [1; 2] false; RChunk [3; 4] true] (RErr 3) [RChunk [1; 2] false; RChunk [3; 4] true] (RErr 3)
+                  [] (HBytes [1; 2; 3; 4]) None) = false /\
+  let c0 := mkC09 [1; 2; 3] 2 1 [] (Some 1) false 3 1 0 true in
+  model_C09 c0 = mkO09 [RErr 9] (RErr 3) [] (RErr 3) [] HErr None /\
+  ok_C09 c0 (mkO09 [RChunk [] true] (RErr 3) [] (RErr 3) [] (HBytes []) None) = false.
 Proof. vm_compute. repeat split; reflexivity. Qed.
 
 (** the oracle is not trivially true: it rejects a missing end marker, a second
@@ -162,7 +194,7 @@ Proof. vm_compute. repeat split; reflexivity. Qed.
     pull past the end, an end marker after a producer failure, and a puller
     returning short data *)
 Example C09_oracle_rejects :
-  let c := mkC09 [1; 2; 3; 4] 2 0 [] None false 4 0 1 in
+  let c := mkC09 [1; 2; 3; 4] 2 0 [] None false 4 0 1 false in
   let good := model_C09 c in
   let with_pulls p := mkO09 p (RErr 3) [RChunk [1; 2] false] (RErr 3) [] (HBytes [1; 2; 3; 4]) None in
   ok_C09 c good = true /\
@@ -176,7 +208,7 @@ Example C09_oracle_rejects :
   ok_C09 c (mkO09 (o_pulls good) (RErr 3) (o_cancel_pulls good) (RChunk [] true) [] (o_vec good) None) = false /\
   ok_C09 c (mkO09 (o_pulls good) (RErr 3) (o_cancel_pulls good) (RErr 3) [] (HBytes [1; 2; 3]) None) = false /\
   ok_C09 c (mkO09 (o_pulls good) (RErr 3) [RChunk [3; 4] false] (RErr 3) [] (o_vec good) None) = false /\
-  let cf := mkC09 [1; 2; 3; 4; 5; 6] 2 0 [] (Some 5) false 4 0 0 in
+  let cf := mkC09 [1; 2; 3; 4; 5; 6] 2 0 [] (Some 5) false 4 0 0 false in
   ok_C09 cf (mkO09 [RChunk [1; 2] false; RChunk [3; 4] true] (RErr 3) [] (RErr 3) [] HErr None) = false /\
   ok_C09 cf (mkO09 [RChunk [1; 2] false; RErr 9] (RErr 3) [] (RErr 3) [] (HBytes [1; 2]) None) = false /\
   ok_C09 cf (mkO09 [RChunk [1; 2] false; RChunk [9; 9] false; RErr 9] (RErr 3) [] (RErr 3) [] HErr None) = false.
@@ -195,11 +227,11 @@ Qed.
 
 (** a left-invertible "compressor" exists (so [C09_holds_compressed] is not vacuous) *)
 Example C09_nonvacuous_compressed :
-  let c := mkC09 [7; 8; 9] 2 2 [] None true 3 1 1 in
+  let c := mkC09 [7; 8; 9] 2 2 [] None true 3 1 1 false in
   ok_C09 c (model_C09_with c [[40]; 7 :: [8; 9]] (tl (concat [[40]; 7 :: [8; 9]]))) = true.
 Proof.
   exact (C09_holds_compressed (fun d => 40 :: d) (@tl byte) (fun d => eq_refl)
-           (mkC09 [7; 8; 9] 2 2 [] None true 3 1 1) [[40]; 7 :: [8; 9]] eq_refl eq_refl ltac:(cbn; lia) eq_refl).
+           (mkC09 [7; 8; 9] 2 2 [] None true 3 1 1 false) [[40]; 7 :: [8; 9]] eq_refl eq_refl ltac:(cbn; lia) eq_refl).
 Qed.
 
 Local Open Scope nat_scope.
@@ -229,6 +261,13 @@ Check C09_pull_after_cancel_errors : forall t, next_handler (cancel_handler t) =
 Check C09_fail_never_last : forall n ws fuel, 0 < n -> lenw ws < fuel ->
   exists init, fst (raw_pulls fuel (open_handler n ws true)) = init ++ [RErr EC_INTERNAL] /\
                Forall not_last init /\ exists r, concat ws = bodies init ++ r.
+Check C09_panic_same_as_error : forall n ws fuel, 0 < n -> lenw ws < fuel ->
+  raw_pulls fuel (open_panic n ws) = raw_pulls fuel (open_handler n ws true) /\
+  chunk_reader fuel (open_panic n ws) = chunk_reader fuel (open_handler n ws true).
+Check C09_panic_never_last : forall n ws fuel, 0 < n -> lenw ws < fuel ->
+  exists init, fst (raw_pulls fuel (open_panic n ws)) = init ++ [RErr EC_INTERNAL] /\
+               Forall not_last init /\ exists r, concat ws = bodies init ++ r.
+Check C09_reader_fails_on_panic : forall n ws fuel, chunk_reader fuel (open_panic n ws) = HErr.
 Check C09_fail_at_any_message_index : forall tl, term_fail tl -> forall cs fuel, length cs < fuel ->
   raw_pulls fuel (st (map MChunk cs ++ tl) None) = (pulls_fail cs, None) /\
   ends_in_error (pulls_fail cs) = true /\ bodies (pulls_fail cs) = concat (removelast cs).
@@ -266,6 +305,9 @@ Print Assumptions C09_empty_payload_single_empty_last.
 Print Assumptions C09_pull_after_end_errors.
 Print Assumptions C09_pull_after_cancel_errors.
 Print Assumptions C09_fail_never_last.
+Print Assumptions C09_panic_same_as_error.
+Print Assumptions C09_panic_never_last.
+Print Assumptions C09_reader_fails_on_panic.
 Print Assumptions C09_fail_at_any_message_index.
 Print Assumptions C09_early_stop_prefix.
 Print Assumptions C09_reader_reassembles.
